@@ -183,7 +183,35 @@ func evName(e *logEv) string {
 func (d *driver) Apply(s core.Step) (any, any, error) {
 	switch s.Op() {
 	case "Hist":
-		return nil, nil, nil
+		// every inconsistency class any restart (or the final state) of this experiment shows, whatever the
+		// model says about the individual steps
+		seen := map[string]bool{}
+		for i, r := range d.segs {
+			if i > 0 {
+				switch {
+				case r.Out == nil || r.Out.OpenErr != "" || r.Out.Obs1 == nil:
+					seen["restart-failed"] = true
+				default:
+					for _, p := range evaluate(d.l.w, r.Out.Obs1).Problems {
+						seen[p] = true
+					}
+				}
+			}
+			if r.Died != "" {
+				seen["node-died"] = true
+			}
+			if i == len(d.segs)-1 && r.Out != nil && r.Out.Obs2 != nil {
+				for _, p := range evaluate(d.l.w, r.Out.Obs2).Problems {
+					seen[p] = true
+				}
+			}
+		}
+		ps := []string{}
+		for p := range seen {
+			ps = append(ps, p)
+		}
+		sort.Strings(ps)
+		return map[string]any{"problems": ps}, nil, nil
 	case "Deliver", "Step":
 		exp, _ := s["ret"].(map[string]any)
 		expW, _ := exp["w"].([]any)
@@ -350,7 +378,7 @@ func (d *driver) Signature(b *core.Behaviour, idx int, field string, expected, o
 	op := b.Steps[idx].Op()
 	obs := ""
 	switch {
-	case op == "Recover" || field == "chk":
+	case op == "Recover" || op == "Hist" || field == "chk":
 		obs = classes(observed)
 	case op == "Crash":
 		obs = fmt.Sprint(observed)
